@@ -4,6 +4,7 @@ import FancyModel.Model.Chars
 import FancyModel.Spec.Domain
 import FancyModel.Driver.Wire
 import FancyModel.Model.VMBytesCheck
+import FancyModel.Spec.Stage4
 /-!
 # Driver glue for the engine operations (`pat`, `facts`, `prog`, `caps`). Tie code, not model.
 -/
@@ -147,7 +148,12 @@ def doPat (sp : List Char) (fields : List String) : Cur × String :=
             | .wrap => false
             | .fancy prog => s3ok (fun g => backrefs.contains g) b.raw true && wellShaped b.raw && noBareEndZ b.raw &&
                 progDelegOK prog.nSaves prog.body
-          s!"{kind} {b.nGroups} ws={b01 (wellShaped b.raw)} closed={b01 (closed b.raw)} nel={b01 (noEmptyLoop b.raw)} ncl={b01 (noCondLeak b.raw)} mod={b01 modelled} s2={b01 s2} s3={b01 s3}"
+          -- … and of the theorem for the larger stage S4 (`C01_vm_correct_s4`, Proofs/C01g.lean: `s4Stage`): delegated
+          -- runs of the top-level concatenation may own capture groups that nothing else touches
+          let s4 := match b.kind with
+            | .wrap => false
+            | .fancy _ => s4ok (fun g => backrefs.contains g) b.raw && wellShaped b.raw && noBareEndZ b.raw
+          s!"{kind} {b.nGroups} ws={b01 (wellShaped b.raw)} closed={b01 (closed b.raw)} nel={b01 (noEmptyLoop b.raw)} ncl={b01 (noCondLeak b.raw)} mod={b01 modelled} s2={b01 s2} s3={b01 s3} s4={b01 s4}"
       (cur, ans)
     | _ => (default, "bad-tree")
   | _ => (default, "bad-op")
